@@ -118,6 +118,10 @@ func printACL(b *strings.Builder, a *GACL, standard bool) {
 		kind = "standard"
 	}
 	for _, l := range a.Lines {
+		if strings.HasPrefix(l, "remark ") {
+			fmt.Fprintf(b, "access-list %s %s\n", a.Name, l)
+			continue
+		}
 		fmt.Fprintf(b, "access-list %s %s %s\n", a.Name, kind, l)
 	}
 }
@@ -317,6 +321,17 @@ func (g *Gen) TargetVPN(intf string) *GVPN {
 		if g.Rng.Intn(2) == 0 {
 			a, _ := g.netAddr()
 			r.Split = &GACL{fmt.Sprintf("split-tunnel-G%d", n), []string{"permit " + a + " 255.255.255.0"}}
+			for k := g.Rng.Intn(3); k > 0; k-- {
+				b, _ := g.netAddr()
+				if b != a {
+					r.Split.Lines = append(r.Split.Lines, "permit "+b+" 255.255.255.0")
+				}
+			}
+			r.Split.Lines = dedupLines(r.Split.Lines, false)
+			// Heading remarks, none to three.
+			for k := g.Rng.Intn(4); k > 0; k-- {
+				r.Split.Lines = append([]string{fmt.Sprintf("remark split tunnel G%d note %d", n, k)}, r.Split.Lines...)
+			}
 			r.GPAttrs = append(r.GPAttrs, "split-tunnel-policy tunnelspecified")
 		}
 		if g.Rng.Intn(2) == 0 {
@@ -354,7 +369,28 @@ func (g *Gen) EditVPN(v *GVPN) string {
 	if v == nil {
 		return ""
 	}
-	switch g.Rng.Intn(20) {
+	switch g.Rng.Intn(21) {
+	case 20: // standard ACL differs but shares lines
+		var cand []*GRemoteAccess
+		for _, r := range v.RA {
+			if r.Split != nil && r.UseTG == "" {
+				cand = append(cand, r)
+			}
+		}
+		if len(cand) > 0 {
+			r := cand[g.Rng.Intn(len(cand))]
+			a, _ := g.netAddr()
+			nl := "permit " + a + " 255.255.255.0"
+			last := len(r.Split.Lines) - 1
+			switch {
+			case g.Rng.Intn(2) == 0 || strings.HasPrefix(r.Split.Lines[last], "remark"):
+				r.Split.Lines = append(r.Split.Lines, nl)
+			default:
+				r.Split.Lines[last] = nl
+			}
+			r.Split.Lines = dedupLines(r.Split.Lines, false)
+			return "split-tunnel-acl-changed"
+		}
 	case 19: // device has no webvpn section at all; the command sent just before it is a sub-command of another mode
 		any := false
 		for _, r := range v.RA {
